@@ -293,6 +293,18 @@ theorem ctxGenFinish_ext (cid : CtxId) (x : Ctx) (fid : Nat) (next : Option Task
     | exact h0.trans (resumeWaiters_ext _ _ _)
     | exact h0.trans ((storeGenerated_ext _ _ _ _).trans (resumeWaiters_ext _ _ _))
 
+theorem ctxCancelGet_ext (cid : CtxId) (x : Ctx) (lid : TaskId) (next : Option TaskId) :
+    Ext x (ctxCancelGet cid x lid next).1 := by
+  unfold ctxCancelGet
+  split
+  · next p0 _ =>
+    exact (Ext.of_fields (x := x)
+        (x' := { x with pending := x.pending.filter fun q => q.fid ≠ p0.fid }) rfl rfl rfl rfl rfl rfl).trans
+      (resumeWaiters_ext cid _ (wakeOrder next p0.waiters))
+  · split
+    · exact Ext.of_fields rfl rfl rfl rfl rfl rfl
+    · exact Ext.refl _
+
 theorem runBodyOp_ext (cid : CtxId) (cur : Option CtxId) (x : Ctx) (op : BodyOp) : Ext x (runBodyOp cid cur x op).1 := by
   cases op with
   | add types name v => exact ctxAdd_ext _ _ _
@@ -503,6 +515,8 @@ theorem step_WKeeps (w : World) (op : Op) (hnew : ∀ t c p, op ≠ .new t c p) 
   | get t c k opt => exact WKeeps.onCtx _ _ _ (fun x => (ctxGet_ext c x t k opt).keeps)
   | genFinish c fid next =>
     exact WKeeps.onCtx _ _ _ (fun x => (ctxGenFinish_ext c x fid next).keeps)
+  | cancelGet c lid next =>
+    exact WKeeps.onCtx _ _ _ (fun x => (ctxCancelGet_ext c x lid next).keeps)
   | getAll c ty => simp only [step]; split <;> exact WKeeps.refl _
   | addTeardown c cb callable => exact step_addTeardown_WKeeps w c cb callable
   | current t => simp only [step]; split <;> exact WKeeps.refl _
